@@ -104,6 +104,20 @@ PROPS = {
             "'state intact afterwards' is covered by the digest clause of C01's monitor on the same traces",
         ],
     },
+    "C05": {
+        "modules": ["Hannibal.Props.C05", "Hannibal.Props.C05Current"],
+        "theorems": ["Hannibal.C05_holds", "Hannibal.C05_current", "Hannibal.wellWired05_current"],
+        "cases": {"quick": {"C05": 1500}, "thorough": {"C05": 20000, "C15": 3000, "C13": 3000}},
+        "assumptions": COMMON_ASSUMPTIONS + [
+            "'drains, then terminates gracefully once the last strong handle is gone' (monC05q: by quiescence every "
+            "acknowledged send was handled and the actor ended gracefully) is a liveness clause judged on real "
+            "quiescent traces only",
+            "service registry, parent's child list and broker subscriptions as holders are multi-actor: they appear "
+            "in single-actor traces as ordinary strong / weak handles held by the harness's registry and broker ops",
+            "wiring hypothesis WellWired05 (strong kinds own both closures, weak kinds own nothing and must upgrade) "
+            "is re-proved by `decide` for the wiring regenerated from the source on every run",
+        ],
+    },
     "C10": {
         "modules": ["Hannibal.Props.C10", "Hannibal.Props.C10Current"],
         "theorems": ["Hannibal.C10_holds", "Hannibal.C10_current"],
